@@ -225,3 +225,5 @@ def run(db, ctx):
     from . import C07
     common.shared_rule(db, ctx, C07.r75, 'R3.9', 'Threshold::threshold lists every cell of the block whose 8-bit score is >= the byte threshold, '
                        'all rows and all C columns, with the position it stands for (shared with R7.5)', ['R7.5'])
+    common.shared_rule(db, ctx, C04.stripe_rules, 'R3.11', 'the striped matrix Scanner::max scores is the sequence (shared with R4.1 - R4.4; seed C03-9 swapped two rows of the AVX2 transposition)',
+                       ['R4.1', 'R4.2', 'R4.3', 'R4.4'])
